@@ -33,7 +33,7 @@ ASSUMPTIONS = ["float arithmetic: probability() is compared with the exact ratio
                "grammars are finite (no recursive=True), at most 2500 programs (the runner lowers the bound otherwise)",
                "programs have no empty application Function(P, []); rule dictionaries come from Python dicts (distinct keys)",
                "unambiguous grammars: every rule has at least one alternative and all alternatives of a rule have the same length",
-               "samples given to pcfg_from_samples are members of the grammar"]
+               "samples given to pcfg_from_samples are members of the grammar, plus up to two programs outside it whose offending symbols are leaves (add_count ignores those occurrences; an offending function head makes the code raise KeyError and is not used)"]
 
 _CACHE = {}
 
